@@ -521,7 +521,7 @@ def _import_case(scratch, uid, rng):
     hole = rng.choice([None, None, None] + list(range(depth))) if depth else None
     comps = ['xv17%s_%d' % (uid, i) for i in range(depth)]
     kind = rng.choice(['ok', 'ok', 'ok', 'raises', 'syntax', 'missing-import', 'pkg', 'pkg-raises', 'main', 'init-file'])
-    leaf = 'xv17%s_leaf' % uid
+    leaf = rng.choice(['xv17%s_leaf', 'xv17%s_leaf', 'xv17%s__init__', 'xv17%s__main__', '__init__xv17%s', '__main__xv17%s']) % uid
     files = {}
     prefix = ''
     for i, c in enumerate(comps):
@@ -663,9 +663,124 @@ def import_misc_cases(scratch, uid):
     return out
 
 
+def syspath_order_cases(scratch, uid):
+    """sys.path is EXACTLY the same list (order, duplicates, identity) after import_module_from_path and after a
+    PythonPathContext block, also when the directory is already listed (front / middle / end, once or twice), for
+    index in {default, -1, 0, 1, len, -len-1, beyond the end}; and a name defined in two listed directories
+    resolves to the same file before and after.
+    Known behaviour of the unchanged code, expected exactly: an index BEYOND the end with the directory already
+    listed takes the recovery branch, which removes the FIRST occurrence (['a','b','c'], index 10 -> ['b','c','a'])."""
+    import warnings
+    from importlib.machinery import PathFinder
+    u = ui()
+    out = []
+    proj = os.path.join(scratch, 'proj')
+    other = os.path.join(scratch, 'other')
+    third = os.path.join(scratch, 'third')
+    dup = 'xv17o%s_dup' % uid
+    gt.write_tree(proj, {'files': {dup + '.py': "X = 'proj'\n"}, 'dirs': []})
+    gt.write_tree(other, {'files': {dup + '.py': "X = 'other'\n"}, 'dirs': []})
+    os.makedirs(third, exist_ok=True)
+    saved = list(sys.path)
+    path_obj = sys.path
+    k = max(1, len(saved) // 2)
+    places = {
+        'absent': saved + [other],
+        'front': [proj, other] + saved,
+        'middle': saved[:k] + [proj, other] + saved[k:],
+        'end': saved + [other, proj],
+        'second-to-last': saved + [proj, other],
+        'twice front+end': [proj] + saved + [other, proj],
+        'twice front+middle': [proj, other] + saved[:k] + [proj] + saved[k:],
+        'other first': [other, third, proj] + saved,
+    }
+    counter = [0]
+
+    def resolve():
+        importlib.invalidate_caches()
+        spec = PathFinder.find_spec(dup)
+        a = None if spec is None else spec.origin
+        b = u.modname_to_modpath(dup)
+        return (a, b)
+
+    try:
+        for place, base in sorted(places.items()):
+            n = len(base)
+            for label, index in (('default', None), ('-1', -1), ('0', 0), ('1', 1), ('len', n), ('-len-1', -n - 1), ('-2', -2), ('beyond', n + 7)):
+                for op in ('import', 'context'):
+                    counter[0] += 1
+                    mod = 'xv17o%s_m%d' % (uid, counter[0])
+                    with open(os.path.join(proj, mod + '.py'), 'w') as fh:
+                        fh.write('X = %r\n' % mod)
+                    sys.path[:] = base
+                    before = list(sys.path)
+                    res_before = resolve()
+                    before_mods = set(sys.modules)
+                    outcome = None
+                    with warnings.catch_warnings(record=True) as wlist:
+                        warnings.simplefilter('always')
+                        try:
+                            if op == 'import':
+                                m = (u.import_module_from_path(os.path.join(proj, mod + '.py')) if index is None
+                                     else u.import_module_from_path(os.path.join(proj, mod + '.py'), index=index))
+                                outcome = (m.__name__, os.path.abspath(m.__file__), getattr(m, 'X', None))
+                            else:
+                                ctxm = u.PythonPathContext(proj) if index is None else u.PythonPathContext(proj, index=index)
+                                with ctxm:
+                                    inside = list(sys.path)
+                                outcome = 'inside: one more entry' if sorted(inside) == sorted(before + [proj]) else 'inside: %r' % (inside,)
+                        except Exception as ex:
+                            outcome = 'raise:' + type(ex).__name__
+                    after = list(sys.path)
+                    same_obj = sys.path is path_obj
+                    for kk in set(sys.modules) - before_mods:
+                        del sys.modules[kk]
+                    res_after = resolve()
+                    os.remove(os.path.join(proj, mod + '.py'))
+                    eff_default = -1 if op == 'import' else 0
+                    eff = eff_default if index is None else index
+                    known = eff > n and proj in before
+                    expected = list(before)
+                    if known:
+                        expected.remove(proj)
+                        expected.append(proj)
+                    case = '%s, directory %s, index %s' % (op, place, label)
+                    bad = None
+                    if not same_obj:
+                        bad = 'sys.path was replaced by another list object'
+                    elif after != expected:
+                        bad = 'sys.path differs after the call (order / duplicates)'
+                    elif not known and res_after != res_before:
+                        bad = 'a name defined in two listed directories resolves differently afterwards'
+                    elif op == 'import' and outcome != (mod, os.path.join(proj, mod + '.py'), mod):
+                        bad = 'import_module_from_path returned %r' % (outcome,)
+                    elif op == 'context' and outcome != 'inside: one more entry':
+                        bad = 'inside the block sys.path is not the old list plus the directory: %s' % outcome
+                    elif (len(wlist) > 0) != (eff > n):
+                        bad = 'warning %s' % ('missing for an index beyond the end' if eff > n else 'issued: %s' % str(wlist[0].message)[:80])
+                    rel = lambda lst: ['proj' if x == proj else 'other' if x == other else 'third' if x == third else '.' for x in lst]
+                    out.append({'case': case, 'known_shape': known, 'expected': ' '.join(rel(expected)), 'impl': ' '.join(rel(after)),
+                                'bad': None if bad is None else '%s: %s (resolution before %r, after %r)' % (
+                                    case, bad, [os.path.basename(os.path.dirname(x)) if x else x for x in res_before],
+                                    [os.path.basename(os.path.dirname(x)) if x else x for x in res_after])})
+    finally:
+        sys.path[:] = saved
+        importlib.invalidate_caches()
+        for kk in list(sys.path_importer_cache):
+            if 'xdocverif-' in kk:
+                del sys.path_importer_cache[kk]
+    return out
+
+
 def import_suite(ctx, corr, n):
     scratch0 = tempfile.mkdtemp(prefix='xdocverif-')
     try:
+        for pr in syspath_order_cases(os.path.join(scratch0, 'order'), '%d_%d' % (os.getpid(), ctx.seed)):
+            corr.count('sys.path exact before/after (directory already listed)')
+            corr.nontriv(('spo', pr['case']))
+            corr.tag('sys.path:known-shape index beyond the end, directory listed' if pr['known_shape'] else 'sys.path:exact')
+            if pr.get('bad'):
+                corr.expect_fail('eager-oracle:SPO', {'api': 'SPO'}, pr['expected'], pr['impl'], pr['bad'])
         for pr in import_misc_cases(scratch0, '%d_%d' % (os.getpid(), ctx.seed)):
             corr.count('import_module_from_path:missing/zip')
             corr.nontriv(('impmisc', pr['case']))
@@ -1151,6 +1266,12 @@ def check_case_(inp):
             _run_suite(inp['suite'], core.Ctx('C17', 'quick', 0), c2)     # under the watchdog of check_case
             for e in c2.expect_failures:
                 return {'api': 'suite ' + inp['suite'], 'observed': e['impl'], 'expected': e['expected'], 'why': e['why']}
+            return None
+        if api == 'SPO':
+            for pr in syspath_order_cases(os.path.join(scratch, 'order'), 'r%d' % os.getpid()):
+                if pr.get('bad'):
+                    return {'api': 'import_module_from_path / PythonPathContext with the directory already on sys.path',
+                            'observed': pr['impl'], 'expected': pr['expected'], 'why': pr['bad']}
             return None
         if api == 'IMPX':
             for pr in import_misc_cases(os.path.join(scratch, 'impx'), 'r%d' % os.getpid()):
